@@ -766,15 +766,15 @@ def scan_outputs(ctx, cfg, desc, wd, run, roots):
     if run['json'] is not None:
         outs['json'] = {k: run['json'].get(k) for k in ('config', 'log',
                                                          'metadata')}
-    h5p = pathlib.Path(cfg['hdf5_result_path'])
-    if h5p.is_file():
+    if cfg.get('hdf5_result_path') and \
+            pathlib.Path(cfg['hdf5_result_path']).is_file():
         try:
-            outs['hdf5'] = read_hdf5_blob(h5p)
+            outs['hdf5'] = read_hdf5_blob(cfg['hdf5_result_path'])
         except Exception as e:
             ctx.log('cannot read hdf5 output: %r' % e)
-    lp = pathlib.Path(cfg['log_path'])
-    if lp.is_file():
-        outs['logfile'] = {'log': lp.read_text().splitlines()}
+    if cfg.get('log_path') and pathlib.Path(cfg['log_path']).is_file():
+        outs['logfile'] = {'log': pathlib.Path(
+            cfg['log_path']).read_text().splitlines()}
     csvp = cfg.get('csv_result_path')
     if csvp and pathlib.Path(csvp).is_file():
         outs['csv'] = {'header': [l for l in pathlib.Path(
@@ -838,9 +838,50 @@ def injected_worker_failure(rng, failure, cfg):
         os.close(devnull)
 
 
-def check_run(ctx, rng, failure, awkward=True, cloud_safe=None):
+COMBOS = ['both', 'json-only', 'hdf5-only', 'both-nolog', 'json-only-nolog',
+          'hdf5-only-nolog']
+
+
+def apply_combo(cfg, combo):
+    """which of the outputs the run is asked for"""
+    if combo.startswith('json-only'):
+        cfg['hdf5_result_path'] = None
+    if combo.startswith('hdf5-only'):
+        cfg['extended_result_path'] = None
+    if combo.endswith('-nolog'):
+        cfg['log_path'] = None
+
+
+def run_mapping_cfg(config):
+    """run_mapping with exactly the outputs the config names (any of the
+    JSON, HDF5 and log outputs may be None)"""
+    from cell_type_mapper.cli.from_specified_markers import run_mapping as rm
+    err = None
+    try:
+        rm(config=copy.deepcopy(config),
+           output_path=config['extended_result_path'],
+           log_path=config.get('log_path'),
+           hdf5_output_path=config.get('hdf5_result_path'))
+    except KeyboardInterrupt:
+        raise
+    except BaseException as e:   # noqa
+        err = e
+    out = None
+    if config['extended_result_path'] is not None:
+        p = pathlib.Path(config['extended_result_path'])
+        if p.is_file():
+            try:
+                out = json.loads(p.read_text())
+            except Exception:
+                out = None
+    return {'ok': err is None, 'error': err, 'json': out}
+
+
+def check_run(ctx, rng, failure, awkward=True, cloud_safe=None,
+              combo='both'):
     with pipeline.workdir('ctmverif_c20p_') as wd:
         cfg, desc = build_case(rng, wd, failure, awkward)
+        apply_combo(cfg, combo)
         roots = sensitive_roots(wd)
         if cloud_safe is not None:
             cfg['cloud_safe'] = cloud_safe
@@ -852,19 +893,21 @@ def check_run(ctx, rng, failure, awkward=True, cloud_safe=None):
         try:
             with pipeline.quiet(), \
                     injected_worker_failure(rng, failure, cfg):
-                run = pipeline.run_mapping(cfg)
+                run = run_mapping_cfg(cfg)
         finally:
             tempfile.tempdir = saved_tmp
             # the exception keeps the FileTracker alive through its
             # traceback; drop it here so that __del__ prints inside quiet()
             if run['error'] is not None:
                 run['error'] = repr(run['error'])
-            gc.collect()
+            with pipeline.quiet():
+                gc.collect()
         status = 'ok' if run['ok'] else 'error'
         ctx.count('run:%s:%s' % (failure, status))
+        ctx.count('outputs:%s' % combo)
         found, outs = scan_outputs(ctx, cfg, desc, wd, run, roots)
-        wrote_log = 'logfile' in outs
-        ctx.case(('run', failure, status, bool(cfg['tmp_dir']),
+        wrote_log = bool(outs)
+        ctx.case(('run', failure, status, combo, bool(cfg['tmp_dir']),
                   tuple(os.path.basename(d) for d in desc['dirs']))
                  if wrote_log else None,
                  sample={'kind': 'run', 'failure': failure, 'status': status,
@@ -877,16 +920,18 @@ def check_run(ctx, rng, failure, awkward=True, cloud_safe=None):
             where, leak, s = found[0]
             cls = leak_class(leak, cfg, desc, wd)
             ctx.violation(
-                'C20/pipeline/leak/%s/%s' % (failure, cls),
-                'cloud_safe run (%s, %s) reveals %r in %s: %r'
-                % (failure, status, leak, where, s[:300]),
+                'C20/pipeline/leak/%s/%s%s' % (
+                    failure, cls, '' if combo == 'both' else '/' + combo),
+                'cloud_safe run (%s, %s, outputs: %s) reveals %r in %s: %r'
+                % (failure, status, combo, leak, where, s[:300]),
                 {'kind': 'run', 'failure': failure, 'awkward': awkward,
+                 'combo': combo,
                  'config': cfg, 'where': where, 'leak': leak,
                  'string': s, 'error': err,
                  'all': [(w, l) for w, l, _ in found[:10]],
                  'rng_state': None})
         # the config recorded = the model's safeConfig of the config given
-        recorded = (outs.get('json') or {}).get('config')
+        recorded = (outs.get('json') or outs.get('hdf5') or {}).get('config')
         if recorded is not None:
             for k in ('tmp_dir', 'extended_result_dir'):
                 if k in recorded:
@@ -949,13 +994,21 @@ def run(ctx):
         replay(ctx, json.loads(f.read_text()), from_corpus=True)
     if ctx.tier == 'quick':
         run_unit(ctx, n_layouts=12, n_per_layout=250)
-        runs = [(f, True) for f in FAILURES] + [('success', False)]
+        runs = [(f, True, rng.choice(COMBOS)) for f in FAILURES] + \
+               [('success', False, 'both'),
+                # every output alone, with a traceback in the log
+                ('negative_raw', True, 'hdf5-only'),
+                ('missing_markers', True, 'hdf5-only-nolog'),
+                ('unknown_reference_marker', True, 'json-only-nolog'),
+                ('success', True, 'hdf5-only'),
+                ('bad_taxonomy', True, 'json-only')]
     else:
         run_unit(ctx, n_layouts=60, n_per_layout=400)
-        runs = [(f, True) for f in FAILURES for _ in range(6)] + \
-               [(f, False) for f in FAILURES for _ in range(2)]
-    for failure, awkward in runs:
-        check_run(ctx, rng, failure, awkward)
+        runs = [(f, True, c) for f in FAILURES for c in COMBOS] + \
+               [(f, False, rng.choice(COMBOS)) for f in FAILURES
+                for _ in range(2)]
+    for failure, awkward, combo in runs:
+        check_run(ctx, rng, failure, awkward, combo=combo)
     # the scanner is not blind: the same kind of run without cloud_safe
     # must show paths
     _, found = check_run(ctx, rng, 'success', True, cloud_safe=False)
@@ -981,7 +1034,8 @@ def replay(ctx, data, from_corpus=False):
         # re-run the failure class in fresh layouts (names are re-drawn from
         # the same pools); a few attempts
         for i in range(int(d.get('attempts', 6))):
-            _, found = check_run(ctx, r, d['failure'], d.get('awkward', True))
+            _, found = check_run(ctx, r, d['failure'], d.get('awkward', True),
+                                 combo=d.get('combo', 'both'))
             if found:
                 break
     elif not from_corpus:
